@@ -87,7 +87,7 @@ endcmap CMapName currentdict /CMap defineresource pop end end`))
 		t.Fatalf("%v", m.Map)
 	}
 	bad := ParseToUnicode([]byte(`3 beginbfchar <0001> <0041> endbfchar 1 beginbfrange <00FE> <0101> <00FF> endbfrange`))
-	if len(bad.Problems) != 2 {
+	if len(bad.Problems) != 3 {
 		t.Fatalf("%v", bad.Problems)
 	}
 }
